@@ -260,6 +260,18 @@ def r1_frames(repo, report):
 
 # ---------------------------------------------------------------------------
 def r2_files(repo, report):
+    # text outputs (info / rest / wildcard files): the in-memory proxy of a worker encodes text exactly like the serial
+    # text file - both leave encoding, errors and newline to the defaults
+    cpt, pti = repo.need_method("ProxyTextFile", "__init__")
+    tw = [x for x in calls(pti) if chain(x.func) == "io.TextIOWrapper"]
+    cfo, fx = repo.need_method("FileOpener", "xopen")
+    xo = [x for x in calls(fx) if chain(x.func) == "open_raise_limit"]
+    xkw = sorted(k.arg for x in xo for k in x.keywords if k.arg in ("encoding", "errors", "newline"))
+    tkw = sorted(k.arg for x in tw for k in x.keywords if k.arg in ("encoding", "errors", "newline"))
+    ok_t = len(tw) == 1 and len(tw[0].args) == 1 and tkw == xkw
+    report.ob("C06.R2", "ProxyTextFile encodes like the serial text file", ok_t, facts={"proxy": src(tw[0]) if tw else None, "proxy_text_options": tkw, "serial_text_options": xkw},
+              expected="io.TextIOWrapper(buffer) with the same encoding/errors/newline options as FileOpener.xopen(path, 'wt') (none)", loc=repo.loc(pti),
+              why="" if ok_t else "a name that the serial run writes (e.g. a non-ASCII adapter name in the info file) is encoded differently, or fails, in a worker")
     ocls = repo.cls("OutputFiles")
     for mname, want in (("open_text", "1"), ("open_record_writer", "len(paths)"), ("open_stdout_record_writer", "1")):
         c, fn = repo.need_method("OutputFiles", mname)
